@@ -233,7 +233,7 @@ def parse_sim_file(text):
 # --------------------------------------------------------------------------
 # batch trace validation
 
-_VERDICT = re.compile(r'<<"VERDICT", ')
+_VERDICT = re.compile(r'<<\s*"VERDICT",')
 
 
 def _parse_verdicts(out):
